@@ -107,7 +107,7 @@ impl RtpsUdpTransportParticipantFactory {
     /// separate message using RTPS data fragments
     pub fn set_fragment_size(&mut self, fragment_size: usize) -> DdsResult<&mut Self> {
         let fragment_size_range = 8..=65000;
-        if !fragment_size_range.contains(&self.fragment_size) {
+        if !fragment_size_range.contains(&fragment_size) {
             return Err(DdsError::BadParameter);
         }
         self.fragment_size = fragment_size;
